@@ -71,6 +71,7 @@ struct Cfg {
     pert: u8,      // 0 none, 1 reduced, 2 full
     prf: bool,     // decrypt the PRF key shares (slow: discrete logs)
     extra_ar: bool, // the chain knows one more revoker than the credential uses
+    holder_superset: bool, // the credential-creation context knows MORE revokers than were chosen at issuance
     nkeys: u8,
     bad_threshold: bool, // threshold = n + 1: the provider must refuse
 }
@@ -109,7 +110,7 @@ fn configs(seed: u64, thorough: bool) -> Vec<Cfg> {
             _ => attrs.iter().filter(|_| r.chance(1, 2)).map(|x| x.0).collect(),
         };
         let max_accounts = maxes[(idx + seed as usize) % maxes.len()];
-        v.push(Cfg { idx, n, t, v1, ids, max_accounts, attrs, revealed, pert, prf, extra_ar: r.chance(1, 2),
+        v.push(Cfg { idx, n, t, v1, ids, max_accounts, attrs, revealed, pert, prf, extra_ar: r.chance(1, 2), holder_superset: (idx % 2 == 0) != v1 || r.chance(1, 4),
                      nkeys: 1 + r.below(3) as u8, bad_threshold: bad });
     };
     // sampled large configurations first (so that shards get them evenly)
@@ -291,7 +292,7 @@ fn bump_token(bytes: &[u8], toks: &[Tok], i: usize, g: &ArCurve) -> Option<Vec<u
     Some(b)
 }
 
-fn perturb(env: &mut Env, cfg: &Cfg, p: &mut Pert, cdi: &Cdi, extra_ar: Option<&ArInfo<ArCurve>>) {
+fn perturb(env: &mut Env, cfg: &Cfg, p: &mut Pert, cdi: &Cdi, extra: &ArInfo<ArCurve>) {
     let g = p.global.on_chain_commitment_key.g;
     let h = p.global.on_chain_commitment_key.h;
     let full = cfg.pert >= 2;
@@ -314,15 +315,23 @@ fn perturb(env: &mut Env, cfg: &Cfg, p: &mut Pert, cdi: &Cdi, extra_ar: Option<&
         { let mut c = cdi.clone(); c.values.ar_data.remove(&b); p.check("values.ar_data.remove", &c, true); }
         { let mut c = cdi.clone(); c.values.ar_data.remove(&b); c.proofs.id_proofs.proof_id_cred_pub.remove(&b); p.check("values.ar_data.remove+proof", &c, true); }
     }
-    if let Some(x) = extra_ar {
+    { // ADD a revoker entry (with and without a proof for it), in the chain's own context and in one
+      // where the chain knows the added revoker
+        let x = extra;
+        let mut ars_plus = p.ars.clone(); ars_plus.insert(x.ar_identity, x.clone());
         let some = cdi.values.ar_data[&ar_ids[0]].clone();
-        { let mut c = cdi.clone(); c.values.ar_data.insert(x.ar_identity, some.clone()); p.check("values.ar_data.add", &c, true); }
+        let (gl, ip, noe, keys) = (p.global, p.ip, p.noe, p.keys);
+        { let mut c = cdi.clone(); c.values.ar_data.insert(x.ar_identity, some.clone());
+          p.check("values.ar_data.add", &c, true); p.check_in("values.ar_data.add@known", &c, true, gl, ip, &ars_plus, noe, keys); }
         { let mut c = cdi.clone(); c.values.ar_data.insert(x.ar_identity, some.clone());
           let pr = c.proofs.id_proofs.proof_id_cred_pub[&ar_ids[0]].clone(); c.proofs.id_proofs.proof_id_cred_pub.insert(x.ar_identity, pr);
-          p.check("values.ar_data.add+proof", &c, true); }
+          p.check("values.ar_data.add+proof", &c, true); p.check_in("values.ar_data.add+proof@known", &c, true, gl, ip, &ars_plus, noe, keys); }
+        { let mut c = cdi.clone();
+          let pr = c.proofs.id_proofs.proof_id_cred_pub[&ar_ids[0]].clone(); c.proofs.id_proofs.proof_id_cred_pub.insert(x.ar_identity, pr);
+          p.check("proofs.proof_id_cred_pub.add", &c, true); p.check_in("proofs.proof_id_cred_pub.add@known", &c, true, gl, ip, &ars_plus, noe, keys); }
         { let mut c = cdi.clone(); let e = c.values.ar_data.remove(&ar_ids[0]).unwrap(); c.values.ar_data.insert(x.ar_identity, e);
           let pr = c.proofs.id_proofs.proof_id_cred_pub.remove(&ar_ids[0]).unwrap(); c.proofs.id_proofs.proof_id_cred_pub.insert(x.ar_identity, pr);
-          p.check("values.ar_data.rename", &c, true); }
+          p.check("values.ar_data.rename", &c, true); p.check_in("values.ar_data.rename@known", &c, true, gl, ip, &ars_plus, noe, keys); }
     }
     // policy
     { let mut c = cdi.clone(); c.values.policy.valid_to = YearMonth::new(2032, 6).unwrap(); p.check("values.policy.valid_to", &c, true); }
@@ -347,6 +356,15 @@ fn perturb(env: &mut Env, cfg: &Cfg, p: &mut Pert, cdi: &Cdi, extra_ar: Option<&
     { let mut c = cdi.clone(); let k0 = *c.values.cred_key_info.keys.keys().next().unwrap();
       c.values.cred_key_info.keys.insert(k0, VerifyKey::from(KeyPair::generate(&mut env.csprng).public())); p.check("values.cred_key_info.replace_key", &c, false); }
     { let mut c = cdi.clone(); c.values.cred_key_info.keys.insert(KeyIndex(200), VerifyKey::from(KeyPair::generate(&mut env.csprng).public())); p.check("values.cred_key_info.add_key", &c, false); }
+    { // ADD a key whose owner signs too: number of signatures == number of keys, only the transcript protects
+        let mut ks: BTreeMap<KeyIndex, KeyPair> = p.keys.keys.iter().map(|(k, v)| (*k, v.clone())).collect();
+        let free = (0u8..=255).find(|i| !ks.contains_key(&KeyIndex(*i))).unwrap();
+        ks.insert(KeyIndex(free), KeyPair::generate(&mut env.csprng));
+        let nk = CredentialData { keys: ks, threshold: p.keys.threshold };
+        let mut c = cdi.clone(); c.values.cred_key_info = nk.get_cred_key_info();
+        let (gl, ip, ars, noe) = (p.global, p.ip, p.ars, p.noe);
+        p.check_in("values.cred_key_info.add_key+signed", &c, true, gl, ip, ars, noe, &nk);
+    }
     if cfg.nkeys >= 2 { let mut c = cdi.clone(); c.values.cred_key_info.threshold = SignatureThreshold::TWO;
         if cdi.values.cred_key_info.threshold != SignatureThreshold::TWO { p.check("values.cred_key_info.threshold", &c, true); } }
     { // a completely new key set that signs the credential itself: only the proof transcript protects this
@@ -367,6 +385,14 @@ fn perturb(env: &mut Env, cfg: &Cfg, p: &mut Pert, cdi: &Cdi, extra_ar: Option<&
         { let mut c = cdi.clone(); let e = c.proofs.id_proofs.commitments.cmm_attributes.get_mut(tag).unwrap(); *e = bumpc(e); p.check("commitments.cmm_attributes", &c, true); }
         { let mut c = cdi.clone(); c.proofs.id_proofs.commitments.cmm_attributes.remove(tag); p.check("commitments.cmm_attributes.remove", &c, true); }
         if !full { break; }
+    }
+    { // ADD a commitment: at a tag that is not in the attribute list, and at a tag that the policy reveals
+        let free = (0u8..20).find(|t| !cfg.attrs.iter().any(|x| x.0 == *t)).unwrap();
+        let some = cdi.proofs.id_proofs.commitments.cmm_prf;
+        let mut c = cdi.clone(); c.proofs.id_proofs.commitments.cmm_attributes.insert(AttributeTag(free), some); p.check("commitments.cmm_attributes.add_unknown_tag", &c, true);
+        if let Some((tag, _)) = cdi.values.policy.policy_vec.iter().next() {
+            let mut c = cdi.clone(); c.proofs.id_proofs.commitments.cmm_attributes.insert(*tag, some); p.check("commitments.cmm_attributes.add_revealed_tag", &c, true);
+        }
     }
     let ncoef = cdi.proofs.id_proofs.commitments.cmm_id_cred_sec_sharing_coeff.len();
     for j in 0..ncoef {
@@ -394,6 +420,9 @@ fn perturb(env: &mut Env, cfg: &Cfg, p: &mut Pert, cdi: &Cdi, extra_ar: Option<&
             if !full && i > 4 && i + 2 < toks.len() { continue; }
             if let Some(nb) = bump_token(&b, &toks, i, &g) { if let Some(r) = de::<com_eq_sig::Response<IpPairing, ArCurve>>(&nb) {
             let mut c = cdi.clone(); c.proofs.id_proofs.proof_ip_sig = r; p.check("proofs.proof_ip_sig", &c, true); } } }
+        // ADD a response pair (copy of the last one)
+        if m >= 1 { let mut nb = b.clone(); nb.extend_from_slice(&b[b.len() - 64..]); nb[32..36].copy_from_slice(&((m + 1) as u32).to_be_bytes());
+            if let Some(r) = de::<com_eq_sig::Response<IpPairing, ArCurve>>(&nb) { let mut c = cdi.clone(); c.proofs.id_proofs.proof_ip_sig = r; p.check("proofs.proof_ip_sig.extend", &c, true); } }
         // drop the last response pair
         if m >= 1 { let mut nb = b[..b.len() - 64].to_vec(); nb[32..36].copy_from_slice(&((m - 1) as u32).to_be_bytes());
             if let Some(r) = de::<com_eq_sig::Response<IpPairing, ArCurve>>(&nb) { let mut c = cdi.clone(); c.proofs.id_proofs.proof_ip_sig = r; p.check("proofs.proof_ip_sig.truncate", &c, true); } }
@@ -427,6 +456,20 @@ fn perturb(env: &mut Env, cfg: &Cfg, p: &mut Pert, cdi: &Cdi, extra_ar: Option<&
       let mut sb = to_bytes(&c.proofs.proof_acc_sk.sigs[&k0]); let i = env.r.below(sb.len() as u64) as usize; sb[i] ^= 1 << env.r.below(8);
       if let Some(s) = de::<AccountOwnershipSignature>(&sb) { c.proofs.proof_acc_sk.sigs.insert(k0, s); p.check("proofs.proof_acc_sk.flip", &c, false); } }
     { let mut c = cdi.clone(); let k0 = *c.proofs.proof_acc_sk.sigs.keys().next().unwrap(); c.proofs.proof_acc_sk.sigs.remove(&k0); p.check("proofs.proof_acc_sk.remove", &c, false); }
+    { // ADD a signature at a key index that has no key: a copy of an existing signature, and a fresh valid
+      // signature (by an unrelated key) on the right message
+        let used: Vec<KeyIndex> = cdi.proofs.proof_acc_sk.sigs.keys().copied().collect();
+        for free in [(0u8..=255).find(|i| !used.contains(&KeyIndex(*i))).unwrap(), 255u8, 7u8] {
+            if used.contains(&KeyIndex(free)) { continue; }
+            let mut c = cdi.clone(); let s0 = c.proofs.proof_acc_sk.sigs[&used[0]].clone();
+            c.proofs.proof_acc_sk.sigs.insert(KeyIndex(free), s0); p.check("proofs.proof_acc_sk.add_copy_at_unused_index", &c, false);
+            let stranger = CredentialData { keys: { let mut m = BTreeMap::new(); m.insert(KeyIndex(free), KeyPair::generate(&mut env.csprng)); m }, threshold: SignatureThreshold::ONE };
+            let unsigned = UnsignedCredentialDeploymentInfo { values: cdi.values.clone(), proofs: cdi.proofs.id_proofs.clone() };
+            let extra_sig = stranger.sign(p.noe, &unsigned);
+            let mut c = cdi.clone(); for (k, v) in extra_sig { c.proofs.proof_acc_sk.sigs.insert(k, v); }
+            p.check("proofs.proof_acc_sk.add_valid_at_unused_index", &c, false);
+        }
+    }
     if cfg.nkeys >= 2 { let mut c = cdi.clone(); let ks: Vec<KeyIndex> = c.proofs.proof_acc_sk.sigs.keys().copied().collect();
         let a = c.proofs.proof_acc_sk.sigs[&ks[0]].clone(); let b = c.proofs.proof_acc_sk.sigs[&ks[1]].clone();
         c.proofs.proof_acc_sk.sigs.insert(ks[0], b); c.proofs.proof_acc_sk.sigs.insert(ks[1], a); p.check("proofs.proof_acc_sk.swap", &c, false); }
@@ -544,11 +587,17 @@ fn after_issue<I: HasIdentityObjectFields<IpPairing, ArCurve, AttributeKind>>(
     }
     // ---- credentials
     let policy = make_policy(cfg, alist);
-    let (extra_info, _) = make_ars(env, &[(1u32..).find(|x| !cfg.ids.contains(x)).unwrap()]);
-    let extra = extra_info.values().next().unwrap().clone();
+    // two revokers that were NOT chosen at issuance: the smallest free identity and a random free one
+    let e1 = (1u32..).find(|x| !cfg.ids.contains(x)).unwrap();
+    let e2 = loop { let x = (env.r.next() as u32).max(1); if x != e1 && !cfg.ids.contains(&x) { break x; } };
+    let (extra_info, _) = make_ars(env, &[e1, e2]);
+    let extra = extra_info[&ArIdentity::new(e1)].clone();
     let mut known = ars_infos.clone();
     if cfg.extra_ar { known.insert(extra.ar_identity, extra.clone()); }
-    let context = IpContext::new(ip_info, ars_infos, &global);
+    // the context the account holder creates credentials in: exactly the chosen revokers, or a strict superset
+    let mut holder_ars = ars_infos.clone();
+    if cfg.holder_superset { for (k, v) in extra_info.iter() { holder_ars.insert(*k, v.clone()); } known.insert(extra.ar_identity, extra.clone()); }
+    let context = IpContext::new(ip_info, &holder_ars, &global);
     let mut counters = counters_for(cfg.max_accounts);
     if cfg.n > 5 { counters.retain(|&x| x == 0 || x >= cfg.max_accounts); }
     // a counter above the limit, made "producible" by an identity object that claims max_accounts = 255
@@ -593,6 +642,11 @@ fn after_issue<I: HasIdentityObjectFields<IpPairing, ArCurve, AttributeKind>>(
                 Ok(Ok((cdi, _))) => cdi,
             };
             rec["created"] = json!("Ok");
+            rec["holder_superset"] = json!(cfg.holder_superset);
+            let ar_keys: Vec<ArIdentity> = cdi.values.ar_data.keys().copied().collect();
+            rec["ar_keys_ok"] = json!(ar_keys == ids);
+            rec["ar_keys"] = json!(ar_keys.iter().map(|x| u32::from(*x)).collect::<Vec<_>>());
+            rec["chosen"] = json!(cfg.ids);
             let ver = verr(&guarded(|| verify_cdi(&global, ip_info, &known, &cdi, &noe)));
             rec["verified"] = json!(ver);
             if ver == "OK" && counter > cfg.max_accounts { rec["dump"] = dump_ctx(&global, ip_info, &known, &cdi, &noe); }
@@ -620,7 +674,7 @@ fn after_issue<I: HasIdentityObjectFields<IpPairing, ArCurve, AttributeKind>>(
             if cfg.pert > 0 && !pert_done && existing == (cfg.idx % 2 == 1) {
                 pert_done = true;
                 let mut p = Pert { cfgidx: cfg.idx, global: &global, ip: ip_info, ars: &known, noe: &noe, keys: &cred_data, count: 0 };
-                perturb(env, cfg, &mut p, &cdi, if cfg.extra_ar { Some(&extra) } else { None });
+                perturb(env, cfg, &mut p, &cdi, &extra);
                 out(json!({"k":"pertdone","cfg":cfg.idx,"count":p.count,"acct": if existing {"existing"} else {"new"}}));
             }
         }
